@@ -517,6 +517,10 @@ class CallMixin:
                 not getattr(self, "inline_visit", False):
             arg = args[0] if args else kwargs.get("node", NONE)
             self.event("visit", visitor=obj.label, vcls=obj.cls, arg=arg, nargs=len(args) + len(kwargs))
+            # the handlers behind the hole may fill the visitor's collections (joins, annotations, ...)
+            for k, av in list(obj.attrs.items()):
+                if isinstance(av, (PyList, PyDict)):
+                    obj.attrs[k] = Sym("collected", obj.label, k)
             return Sym("visit", obj.label, arg)
         decos = getattr(b, "decorators", None)
         if decos and not getattr(self, "_in_decorated", False):
